@@ -176,6 +176,7 @@ Definition update_partial_old_frame (k len x y w h : N) : M unit :=
 Definition update_partial_new_frame (k len x y w h : N) : M unit :=
   wait_until_idle ;;
   _ <- buffer_size_check len w h ;;
+  cmd 0x90 ;;
   shift_display x y w h ;;
   cmd 0x13 ;;
   data_e (DArg k 0 0 len) ;;
